@@ -23,7 +23,8 @@ Damages == {"none", "hdrbit", "mac", "paybit_first", "paybit_last", "trunc", "wr
 Outs == {"stdout", "new", "existing", "missingdir", "underfile", "same_input", "same_keyfile", "devfull_o", "devfull_stdout", "limit", "devnull", "fifo", "tty", "tty_dash"}
 Spellings == {"same", "dot", "dotdot", "abs", "dslash"}
 Limits == {"zero", "one", "mid", "lastbutone", "exact"}     \* where a size-limited destination stops accepting bytes
-FlagErrs == {"none", "e_and_d", "a_with_d", "p_with_d", "r_with_d", "i_without_e", "no_recipient", "p_with_r", "two_inputs"}
+\* "R_stdin" / "i_stdin": recipients (-R -) or identities (-i -) are to be read from standard input, which is also the input
+FlagErrs == {"none", "e_and_d", "a_with_d", "p_with_d", "r_with_d", "i_without_e", "no_recipient", "p_with_r", "two_inputs", "R_stdin", "i_stdin"}
 
 Cmd(op, key, keyarg, armor, input, size, damage, out, spelling, limit, flagerr) ==
   [op |-> op, key |-> key, keyarg |-> keyarg, armor |-> armor, input |-> input, size |-> size, damage |-> damage,
@@ -47,7 +48,9 @@ DecCommands == {Cmd("dec", key, "r", ar, inp, sz, dmg, ov.out, ov.spelling, ov.l
                   ov \in UNION {OutVariants("dec", k2, "r", i2) : k2 \in KeyTypes, i2 \in {"file", "pipe"}}}
 Commands == EncCommands \cup DecCommands
   \cup {Cmd(op, "x25519", "r", FALSE, "missing", 1, "none", "new", "same", "zero", "none") : op \in Ops}
-  \cup {Cmd(op, "x25519", "r", FALSE, "file", 1, "none", "new", "same", "zero", fe) : op \in Ops, fe \in FlagErrs \ {"none"}}
+  \cup {Cmd(op, "x25519", "r", FALSE, "file", 1, "none", "new", "same", "zero", fe) : op \in Ops, fe \in FlagErrs \ {"none", "R_stdin", "i_stdin"}}
+  \cup {Cmd("enc", "x25519", "R", FALSE, "pipe", 1, "none", "new", "same", "zero", "R_stdin"),
+        Cmd("dec", "x25519", "r", FALSE, "pipe", 1, "none", "new", "same", "zero", "i_stdin")}
 Meaningful(c) ==
   /\ (c.key = "scrypt") => (c.keyarg = "r" /\ c.out \in {"new", "existing", "missingdir", "same_input", "limit"})
   /\ (c.out = "same_input") => c.input = "file"
